@@ -49,6 +49,7 @@ def run(chk):
                         ms=[1, 2, 3, 4, 5, 7], merge=True, prop_tags=tags)
     joinfam.random_join(chk, KINDS_SS, "random-merge-large-m", runs=2 if quick else 10, length=40, nitems=40, ms=[64, 256],
                         merge=True, seed=chk.seed + 2, prop_tags=tags)
+    joinfam.big_join(chk, ["ss_", "smh_"])
     chk.cov["explanation"] = "design-level exhaustive for small tables; code-level: all histories of the stated shape + sampled long histories"
 
 
